@@ -334,6 +334,8 @@ func extProdScenario(e epConfig) engine.Scenario {
 						switch {
 						case short:
 							sig = "C20/extprod/base2-digits-shorter-than-modulus"
+						case pth == "32bit" && accCanOverflow(params, ctG):
+							sig = "C20/extprod/32bit/lazy-accumulator-overflow"
 						case pth == "multipleP" && mode == 0:
 						case !e.ntt && pth != "multipleP":
 							sig = "C20/extprod/nonNTT-input-treated-as-NTT"
